@@ -491,13 +491,13 @@ def r6_mac(report, repo):
 
 
 def run(report, repo):
-  r1_handlers(report, repo)
-  r2_handler_class(report, repo)
-  r2b_append_once(report, repo)
-  r3_fields(report, repo)
-  r4_uid_filter(report, repo)
-  r5_loggers(report, repo)
-  r6_mac(report, repo)
+  report.guard(r1_handlers, report, repo)
+  report.guard(r2_handler_class, report, repo)
+  report.guard(r2b_append_once, report, repo)
+  report.guard(r3_fields, report, repo)
+  report.guard(r4_uid_filter, report, repo)
+  report.guard(r5_loggers, report, repo)
+  report.guard(r6_mac, report, repo)
   report.assume('logging.Handler.handle serialises emit() per handler '
                 '(handler lock): ordering / exactly-once per handler is '
                 'delegated to the standard library')
